@@ -19,11 +19,12 @@ RULE = ("product of (old state point, route) x destination kind {absent, initial
         "open_job(id) fresh session} x statepoint accessed before copying x copies {copy.copy x0..2, deepcopy, "
         "pickle}. routes: sp[k]=v, del sp[k], nested set through sub-mapping / list index / append, whole "
         "assignment (incl. no-op, type variants 1/1.0/True, None over containers, list edits), update_statepoint "
-        "+-overwrite (new key, same value, differing value, type variant), move, clone. The scenario script is "
+        "+-overwrite (new key; on EVERY existing key, incl. every falsy value None/0/False/''/[]/{}: the same and a differing "
+        "value; type variant), move, clone, move followed by sp[k]=v / del through the same handle. The scenario script is "
         "derived in Coq (script_C04) and mirrored here; observations: byte snapshots of both workspaces before / "
         "after / after reading documents / after re-using the independent copies, exception class, "
         "(id, path, statepoint(), cached_statepoint, document()) of every handle, ids listed by fresh Projects. "
-        "quick: seeded sample of 420; thorough: the full (old, route) x destination product with 6 handle "
+        "quick: stratified seeded sample of ~485 (guaranteed strata for conflicting updates on falsy values and move-then-edit); thorough: the full (old, route) x destination product with 6 handle "
         "configurations each. non-trivial: the operation changes the id or hits a conflict / KeyError; distinct by input")
 TRUSTED = [
     "float.__repr__ as oracle table (Section variable frepr)",
